@@ -28,6 +28,12 @@ class Ctx:
         self.work = os.path.join(os.environ.get("GM2_VERIF_WORKROOT", "/var/tmp/gm2verif/.work"),
                                  "%s_%d" % (pid, os.getpid()))
         shutil.rmtree(self.work, ignore_errors=True)
+        root = os.path.dirname(self.work)
+        if os.path.isdir(root):             # work dirs of dead processes
+            for d in os.listdir(root):
+                m = re.match(r"^(C\d+)_(\d+)$", d)
+                if m and not os.path.exists("/proc/%s" % m.group(2)):
+                    shutil.rmtree(os.path.join(root, d), ignore_errors=True)
         os.makedirs(self.work)
         self.viol = []          # dicts: inv, sig, detail, files
         self.cov = {"samples": []}
